@@ -31,8 +31,8 @@ RULE = (
     "one evaluation = one batch (program, dataset, options): all-samples run, every solo run, permuted / subset runs, pools run and physically merged run in one interpreter; "
     "distinct_nontrivial = distinct (program, dataset seed, run kind, sample set / order, interference pattern) runs whose sample columns were compared with the solo columns"
 )
-FAULT_KEYS = ["temperatures_file", "read_group_field_id", "single_pool_name_runs", "inbreeding_file", "fit_interference", "prior_work", "permuted_runs", "subset_runs", "solo_runs", "pool_runs", "merged_runs", "multi_core_runs", "sample_in_two_pools"]
-PROBE_KEYS = ["call_pool_start_state_tie_skipped", "exact_tie_skipped", "gl_values_compared", "pool_file_interleaved", "columns_compared", "records_compared_pool_vs_merged", "unknown_alleles_named_by_others", "alt_renumbered", "refmasked_solo_only",
+FAULT_KEYS = ["temperatures_file", "read_group_field_id", "shared_read_group_ids", "single_pool_name_runs", "inbreeding_file", "fit_interference", "prior_work", "permuted_runs", "subset_runs", "solo_runs", "pool_runs", "merged_runs", "multi_core_runs", "sample_in_two_pools"]
+PROBE_KEYS = ["records_with_more_than_127_alt_alleles", "call_pool_start_state_tie_skipped", "exact_tie_skipped", "gl_values_compared", "pool_file_interleaved", "columns_compared", "records_compared_pool_vs_merged", "unknown_alleles_named_by_others", "alt_renumbered", "refmasked_solo_only",
               "programs_assemble", "programs_call", "programs_call_exact", "sample_in_two_pools", "fits_observed"]
 OPTIONAL_PROBES = {"quick": ("alt_renumbered", "refmasked_solo_only", "exact_tie_skipped", "call_pool_start_state_tie_skipped"), "thorough": ()}
 COMPONENTS = dict(scn_c08.COMPONENTS)
@@ -64,6 +64,15 @@ def gen_config(rng, tier, index=0):
 
 
 def _gen_config(rng, tier, index=0):
+    cfg = _gen_config0(rng, tier, index)
+    if rng.random() < 0.025:
+        # a large cohort (40 tetraploids, 160 distinct ALT haplotypes at one locus): allele numbering beyond 127 / 255
+        cfg.update(program="assemble", dataset="cohort", steps=120, chains=1, pools=False, n_perm=1, rg_field_id=False, temperatures=None,
+                   inbreeding=None, threshold=None, report=sorted(set(cfg["report"]) - {"GP", "GL"}), cores=1)
+    return cfg
+
+
+def _gen_config0(rng, tier, index=0):
     return {
         "program": rng.choice(PROGRAMS),
         "dataset": "simple" if rng.random() < 0.25 else "synthetic",
@@ -319,6 +328,8 @@ def _run_batch(ctx, b):
     program = cfg["program"]
     ctx.counters.inc("programs_" + program.replace("-", "_"))
     ds = b.build_dataset()
+    if ds.get("shared_read_group_ids"):
+        ctx.counters.inc("shared_read_group_ids")
     samples = list(ds["samples"])
     ploidy = dict(ds["ploidy"])
     b.extra_args = []
@@ -385,6 +396,8 @@ def _run_batch(ctx, b):
             ctx.log.add("skip", repr(r0["error"])[:200])
             return
         ctx.log.add("joint", program, sorted(joint))
+        if any(len(rec["seqs"]) > 128 for rec in joint.values()):
+            ctx.counters.inc("records_with_more_than_127_alt_alleles")
         # solo runs
         solo = {}
         for s in samples:
